@@ -65,14 +65,14 @@ def sizes(tier):
 # ----------------------------------------------------------------------------------------------
 # plan generation
 # ----------------------------------------------------------------------------------------------
-DTYPES = {"img2d": ["float64", "float64", "float64", "float32", "int64"], "img3d": ["float64", "float64", "float32"],
+DTYPES = {"img2d": ["float64", "float64", "float64", "float32", "int64"], "img3d": ["float64", "float64", "float32"], "img4d": ["float64"],
           "cplx2d": ["complex128", "complex128", "complex64"], "cplx3d": ["complex128"], "vec_inc": ["float64"], "vec_pos": ["float64", "float64", "float32"], "mask2d": ["float64", "int64"],
           "pos": ["float64"], "sep": ["float64"], "slopes3": ["float64"], "frames": ["float64", "float32"], "cov32": ["float32"], "r32": ["float32"]}
 
 
 def gen_heap(rng, z):
     heap = []
-    counts = {"img2d": 3, "img3d": 2, "cplx2d": 2, "cplx3d": 1, "vec_inc": 1, "vec_pos": 3, "mask2d": 2, "pos": 2, "sep": 1, "slopes3": 1, "frames": 1,
+    counts = {"img2d": 3, "img3d": 2, "img4d": 1, "cplx2d": 2, "cplx3d": 1, "vec_inc": 1, "vec_pos": 3, "mask2d": 2, "pos": 2, "sep": 1, "slopes3": 1, "frames": 1,
               "cov32": 1, "r32": 1}
     for cat in registry.CATS:
         for k in range(counts[cat]):
@@ -166,7 +166,8 @@ def gen_plan(rng, tier, index=0):
     # batch-vs-item probes
     for _ in range(rng.randint(0, 2)):
         be = rng.choice([e for e in registry.ENTRIES if e["batch"]])
-        stacks = by_cat[be["batch"]["cat"]]
+        bcats = be["batch"]["cat"] if isinstance(be["batch"]["cat"], list) else [be["batch"]["cat"]]
+        stacks = by_cat[rng.choice(bcats)]
         a = {}
         for param, cats in be["arrays"]:
             if param == be["batch"]["param"]:
@@ -203,6 +204,8 @@ def _content(cat, z, fill):
         for k in range(K):
             a[k, rs.randint(N), rs.randint(N)] += 300
         return a
+    if cat == "img4d":
+        return rs.random_sample((2, K, N, N)) * 100
     if cat == "cplx2d":
         return rs.normal(size=(N, N)) + 1j * rs.normal(size=(N, N))
     if cat == "cplx3d":
@@ -733,6 +736,7 @@ def run_batch(res, log, si, st, e, fname, A, S, heap, specs, do_call, check_heap
     if stack.ndim < 2:
         return
     res.count("op.batch_check")
+    res.count("op.batch_check.%dd" % stack.ndim)
     items = []
 
     def call_items():
